@@ -9,6 +9,7 @@ package main
 
 import (
 	"fmt"
+	"os"
 	"sort"
 	"strings"
 	"sync"
@@ -799,6 +800,79 @@ func (r *runner) runScenario(sc scenario, scIdx int, quickFull bool) {
 			}
 		}
 	}
+
+	// stale XR reads: the reconcile that follows snapshot si reads the XR from an informer cache
+	// that still shows it as it was before the previous reconcile (everything else is current),
+	// then the controller is retried with a current cache to quiescence through the later phases.
+	// Judged for named patch-and-transform templates; counted only for pipelines, whose reference
+	// write is a forced server-side apply without a version precondition: the unchanged tree
+	// composes a second generation from a stale XR there, which C01 does not list among its faults.
+	for si := 1; si < len(snaps) && sc.Lag == 0; si++ {
+		// the versions of the XR the cache may still hold: as of the previous snapshot, and as of every
+		// write to the XR during the previous reconcile but the last (the cache is k writes behind)
+		lo, hi := snaps[si-1].world.RV(), snaps[si].world.RV()
+		asOf := []int64{lo}
+		for _, rv := range snaps[si].world.Versions(xrKey) {
+			if rv > lo && rv < hi {
+				asOf = append(asOf, rv)
+			}
+		}
+		if len(asOf) > 1 {
+			asOf = asOf[:len(asOf)-1] // the last write is the current XR
+		}
+		if len(asOf) > 5 {
+			asOf = asOf[:5]
+		}
+		for _, frozen := range asOf {
+			caseName := fmt.Sprintf("%s/r%d/stale-xr-read-as-of-rv%d", sc.Name, si, frozen)
+			if !c.Want(caseName) {
+				continue
+			}
+			sn := snaps[si]
+			w := sn.world.Clone()
+			m := &monitor{created: map[string]map[string]bool{}}
+			w.AddHook(m.hook)
+			// only the read that opens the reconcile is stale: the informer delivers the XR's newer
+			// versions right after the reconcile has started
+			stale := true
+			cached := w.LaggingClient("xr", func(gk schema.GroupKind) (int64, bool) {
+				if stale && gk.Kind == "XThing" {
+					stale = false
+					return -frozen, true
+				}
+				return 0, false
+			})
+			env := xrk.NewXREnvSplit(w, xrd, cached, w.Client("xr"))
+			r.phase.Store(int32(sn.phase))
+			var trace []string
+			_, err, _ := env.Reconcile("xr1")
+			stale = false
+			trace = append(trace, fmt.Sprintf("reconcile with the XR read as of resourceVersion %d (snapshot %d is at %d): err=%v", frozen, si, hi, err != nil))
+			if sc.Provider {
+				providerStep(w)
+			}
+			ok := reconcileToQuiescence(env, m, fmt.Sprintf("phase %d retry", sn.phase), &trace, sc.Phases[sn.phase].Unsteady, sc.Provider)
+			for p := sn.phase + 1; p < len(sc.Phases) && ok; p++ {
+				r.enterPhase(w, &sc, p)
+				ok = reconcileToQuiescence(env, m, fmt.Sprintf("phase %d", p), &trace, sc.Phases[p].Unsteady, sc.Provider)
+			}
+			if os.Getenv("DBG") != "" {
+			fmt.Fprintln(os.Stderr, "DBG", caseName, asOf, lo, hi, trace, m.violKeys)
+		}
+		c.Count("stale_xr_read_executions", 1)
+			if sc.Mode != "pt" {
+				c.Count("stale_xr_read_pipeline_alarms_observed_only", int64(len(m.violKeys)))
+				m.violKeys, m.viol = nil, nil
+			} else {
+				c.Eval(fmt.Sprintf("%s|r%d|stale-xr-read|%d", sc.Name, si, frozen), true)
+				for i := range m.violKeys {
+					m.violKeys[i] += ":stale-xr-read"
+				}
+			}
+			r.finishExec(&sc, caseName, m, func() any { return map[string]any{"scenario": sc, "snapshot": si, "steps": trace} }, false)
+			env.CloseConns()
+		}
+	}
 }
 
 // finishExec applies the end-of-execution oracle (I3) and reports violations.
@@ -839,6 +913,7 @@ func main() {
 	c.Rule += " " + "A P&T base template may already carry the composition-resource-name annotation of another template."
 	c.Rule += " " + "A pipeline scenario with six resources that never become ready; four further reconciles after the first quiet one of every phase must stay quiet; a P&T scenario whose Required patch source is set, removed and set again."
 	c.Rule += " " + "Same-named kinds of which two are dropped and one returns; a still-desired composed resource deleted by the user while a provider finalizer holds it (no replacement next to it)."
+	c.Rule += " " + "Stale XR reads (P&T judged, pipeline counted): every reconcile of the fault-free run is also run with the XR read as of the previous reconcile, then retried with a current cache."
 	c.Assumptions = []string{"sim implements the apiserver rules listed in DESIGN.md 2.2 (SSA through k8s managedfields library)", "functions are deterministic programs of (request, phase)", "one XR; in 'provider' scenarios a provider actor finalizes composed resources one step after they start terminating"}
 	c.Floor = 200
 
